@@ -20,6 +20,9 @@ type shape struct {
 	N      int    `json:"-"`
 	Solo   bool   `json:"solo"`  // needs a file of its own (package initialisation is part of the shape)
 	Hdr    string `json:"hdr,omitempty"` // text in front of the file's declarations: further files ("//c14:file" sections) and imports; identical for all shapes of a family
+	// WantReject: the program is outside the subset neo-go's compiler supports and the compiler says so with this
+	// message; a rejection with another message is reported, an accepted program is compared like any other.
+	WantReject string `json:"want_reject,omitempty"`
 }
 
 type shapeSet struct {
@@ -56,6 +59,7 @@ func allShapes(thorough bool) []shape {
 	shapesControl(ss, thorough)
 	allShapes2(ss, thorough) // shapes2_test.go
 	allShapes3(ss, thorough) // shapes3_test.go
+	allShapes4(ss, thorough) // shapes4_test.go
 	return ss.list
 }
 
